@@ -356,6 +356,28 @@ func (w *world) checkGet(refs []idRef) (frames int, err error) {
 	} else if resp.Status != 200 {
 		return 0, fmt.Errorf("GET without failing ids answered with HTTP %d", resp.Status)
 	}
+	// the answer for an id is a matter of that id: asked for on its own, a failing id gets the status it
+	// got in the list, whatever stood next to it there
+	if anyErr && len(refs) > 1 {
+		asked := 0
+		for i, r := range refs {
+			if es[i].Status == nil || *es[i].Status == 0 || asked == 3 {
+				continue
+			}
+			asked++
+			one, derr := w.cl.Do("GET", fmt.Sprintf("/characteristics?id=%d.%d", r.aid, r.iid), "", nil)
+			if derr != nil {
+				return 0, fmt.Errorf("GET of the single id %d.%d: %v", r.aid, r.iid, derr)
+			}
+			oes, perr := decodeEntries(one.Body)
+			if perr != nil || len(oes) != 1 || oes[0].Status == nil {
+				return 0, fmt.Errorf("GET of the single failing id %d.%d: HTTP %d %.100q", r.aid, r.iid, one.Status, one.Body)
+			}
+			if *oes[0].Status != *es[i].Status {
+				return 0, fmt.Errorf("GET: id %d.%d is answered with status %d on its own and with status %d as entry %d of a list of %d ids", r.aid, r.iid, *oes[0].Status, *es[i].Status, i, len(refs))
+			}
+		}
+	}
 	return resp.Frames, nil
 }
 
